@@ -47,6 +47,10 @@ def explore(mod, tier: str) -> int:
         agg["digests"].add(out["digest"])
         if out.get("nontrivial"):
             agg["nontrivial"].add(out["digest"])
+        # engines that run many cases per worker call report per-case digests
+        agg["digests"].update(out.get("case_digests", ()))
+        agg["nontrivial"].update(out.get("nontrivial_digests", ()))
+        agg["cases"] = agg.get("cases", 0) + out.get("cases", 1)
         if out.get("sample") is not None and len(agg["samples"]) < 4:
             agg["samples"].append(out["sample"])
         for sig, msg in out["problems"]:
@@ -74,12 +78,12 @@ def explore(mod, tier: str) -> int:
 
     wall = time.monotonic() - t0
     cov = {
-        "evaluations": agg["runs"],
+        "evaluations": agg.get("cases", agg["runs"]),
         "distinct_nontrivial": len(agg["nontrivial"]),
         "rule": mod.RULE,
         "samples": agg["samples"],
         "exhaustive": False,
-        "runs_per_hour": int(agg["runs"] / wall * 3600) if wall > 0 else 0,
+        "runs_per_hour": int(agg.get("cases", agg["runs"]) / wall * 3600) if wall > 0 else 0,
         "seeds_per_hour": int(agg["runs"] / wall * 3600) if wall > 0 else 0,
         "simulated_time": {"unit": mod.TIME_UNIT, "total": agg["units"]},
         "faults_fired": agg["faults"],
